@@ -361,11 +361,11 @@ def compare(rec, model):
         if a is None or b is None:
             continue
         for f in ("pka", "vol", "loc", "buried", "nvol"):
-            if genval.bits(a[f]) != genval.bits(b[f]):
+            if genval.bits(a[f] + 0.0) != genval.bits(b[f] + 0.0):      # (+ 0.0: a negative zero - a fully exposed base has desolvation -0.0 - equals zero)
                 dis.append({"group": a["label"], "index": i, "field": f, "impl": a[f], "model": b[f]})
         for k in KINDS:
-            la = [(x[0], x[1], genval.bits(x[2])) for x in a["dets"][k]]
-            lb = [(x[0], x[1], genval.bits(x[2])) for x in b["dets"][k]]
+            la = [(x[0], x[1], genval.bits(x[2] + 0.0)) for x in a["dets"][k]]
+            lb = [(x[0], x[1], genval.bits(x[2] + 0.0)) for x in b["dets"][k]]
             if la != lb:
                 dis.append({"group": a["label"], "index": i, "field": "dets:" + k, "impl": a["dets"][k], "model": b["dets"][k]})
     for u in rec.unmodelled:
